@@ -31,6 +31,11 @@ pub(crate) mod proto_h {
 }
 #[cfg(not(kani))]
 #[allow(dead_code, unused_imports, unused_macros, unused_variables, unused_assignments, unexpected_cfgs)]
+pub(crate) mod miri_h {
+    include!(concat!(env!("NUCLEO_VERIF_DIR"), "/nucleo/miri_h.rs"));
+}
+#[cfg(not(kani))]
+#[allow(dead_code, unused_imports, unused_macros, unused_variables, unused_assignments, unexpected_cfgs)]
 pub(crate) mod replay {
     include!(concat!(env!("NUCLEO_VERIF_DIR"), "/nucleo/replay.rs"));
 }
